@@ -4,8 +4,9 @@ PARTIAL: the optimiser (`scipy.optimize.minimize`, L-BFGS-B) is a parameter with
 
 What is proved about the code's own logic, for every number of parameters `n`:
 * `box_bounds_rows`   row `i` of `np.reshape(np.append(lb, ub), (n, 2), 'F')` is `(lb[i], ub[i])`;
-* `fit_contract_partial`  if the optimiser returns a point of the box it was handed, with objective not above the
-  start's, then `fit(x, lb, ub)` returns a point with `lb ≤ r ≤ ub` and `cost r ≤ cost x`;
+* `fit_in_box_partial`, `fit_contract_partial`  if the optimiser returns a point of the box it was handed, and — when the
+  `sensitivity` it is handed is the gradient of `cost` (property C07, hypothesis `IsGrad cost sens`) — with objective not
+  above the start's, then `fit(x, lb, ub)` returns a point with `lb ≤ r ≤ ub` and `cost r ≤ cost x`;
 * `fit_at_truth_partial`  if moreover the optimiser returns its start whenever the gradient it is handed is below
   `pgtol` there (L-BFGS-B: projected-gradient test at iteration 0), `fit θ* = θ*` on noise-free data
   (`grad_zero_at_truth`: residual 0 ⇒ `diff_loss` 0 ⇒ `sens_to_grad` 0).
@@ -70,13 +71,15 @@ def InBox (b : List (List (Option Rat))) (x : List Rat) : Prop :=
 def Within (lb ub : List (Option Rat)) (x : List Rat) : Prop :=
   x.length = lb.length ∧ ∀ i, i < x.length → lowerOK (lb.getD i none) (x.getD i 0) ∧ upperOK (ub.getD i none) (x.getD i 0)
 
-/-- ASSUMED of scipy's L-BFGS-B: started inside the box it returns a point of the box whose objective is not
-above the start's. -/
-structure BoxDescent (m : Minimize (List Rat)) : Prop where
+/-- ASSUMED of scipy's L-BFGS-B: started inside the box it returns a point of the box (whatever gradient it is handed),
+and, WHEN THE FUNCTION `g` IT IS HANDED IS THE GRADIENT OF `f` (`IsGrad f g`, an abstract predicate: for a loss
+object this is property C07), a point whose objective is not above the start's.  With an inconsistent gradient the
+line search may end on a warning and L-BFGS-B accepts the step: observed on the real code (corpus/C18). -/
+structure BoxDescent (IsGrad : (List Rat → Rat) → (List Rat → List Rat) → Prop) (m : Minimize (List Rat)) : Prop where
   in_box : ∀ (f : List Rat → Rat) (g : List Rat → List Rat) (x0 : List Rat) (b : List (List (Option Rat))),
     InBox b x0 → InBox b (m f g x0 b .lbfgsb)
   descent : ∀ (f : List Rat → Rat) (g : List Rat → List Rat) (x0 : List Rat) (b : List (List (Option Rat))),
-    InBox b x0 → f (m f g x0 b .lbfgsb) ≤ f x0
+    IsGrad f g → InBox b x0 → f (m f g x0 b .lbfgsb) ≤ f x0
 
 /-- ASSUMED of scipy's L-BFGS-B: if every component of the gradient it is handed at the start is at most `pgtol`
 in absolute value (default 1e-5), it returns the start (the projected-gradient test `‖proj g‖∞ ≤ pgtol` holds before the
@@ -101,14 +104,28 @@ theorem inBox_boxBounds_iff (lb ub : List (Option Rat)) (h : ub.length = lb.leng
     rw [box_bounds_rows lb ub h i (by omega)]
     simpa [hd] using hb i hi
 
-/-- **fit stays in the box and does not get worse** (partial: `BoxDescent` is assumed of the optimiser). -/
-theorem fit_contract_partial (m : Minimize (List Rat)) (hm : BoxDescent m)
+/-- **fit stays in the box** (partial: `BoxDescent.in_box` is assumed of the optimiser; no assumption on the gradient). -/
+theorem fit_in_box_partial (IsGrad : (List Rat → Rat) → (List Rat → List Rat) → Prop)
+    (m : Minimize (List Rat)) (hm : BoxDescent IsGrad m)
     (cost : List Rat → Rat) (sens : List Rat → List Rat)
+    (x : List Rat) (lb ub : List (Option Rat)) (hl : lb.length = x.length) (hu : ub.length = x.length)
+    (hx : Within lb ub x) :
+    ∃ r, fit m cost sens x (some lb) (some ub) = .ok r ∧ Within lb ub r := by
+  have hb : InBox (boxBounds lb ub) x := (inBox_boxBounds_iff lb ub (by omega) x).2 hx
+  refine ⟨m cost sens x (boxBounds lb ub) .lbfgsb, ?_, ?_⟩
+  · simp [fit, prepBounds, hl, hu, chooseMethod]
+  · exact (inBox_boxBounds_iff lb ub (by omega) _).1 (hm.in_box _ _ _ _ hb)
+
+/-- **fit stays in the box and does not get worse** (partial: `BoxDescent` is assumed of the optimiser, and
+`hg : IsGrad cost sens` — the `sensitivity` handed to it is the gradient of `cost` — is property C07). -/
+theorem fit_contract_partial (IsGrad : (List Rat → Rat) → (List Rat → List Rat) → Prop)
+    (m : Minimize (List Rat)) (hm : BoxDescent IsGrad m)
+    (cost : List Rat → Rat) (sens : List Rat → List Rat) (hg : IsGrad cost sens)
     (x : List Rat) (lb ub : List (Option Rat)) (hl : lb.length = x.length) (hu : ub.length = x.length)
     (hx : Within lb ub x) :
     ∃ r, fit m cost sens x (some lb) (some ub) = .ok r ∧ Within lb ub r ∧ cost r ≤ cost x := by
   have hb : InBox (boxBounds lb ub) x := (inBox_boxBounds_iff lb ub (by omega) x).2 hx
-  refine ⟨m cost sens x (boxBounds lb ub) .lbfgsb, ?_, ?_, hm.descent _ _ _ _ hb⟩
+  refine ⟨m cost sens x (boxBounds lb ub) .lbfgsb, ?_, ?_, hm.descent _ _ _ _ hg hb⟩
   · simp [fit, prepBounds, hl, hu, chooseMethod]
   · exact (inBox_boxBounds_iff lb ub (by omega) _).1 (hm.in_box _ _ _ _ hb)
 
@@ -197,8 +214,8 @@ theorem fit_at_truth_of_zero_residual (pgtol : Rat) (hp : 0 ≤ pgtol) (m : Mini
 /-! ### non-vacuity -/
 
 /-- the contract is satisfiable: the optimiser that returns its start -/
-example : BoxDescent (fun _ _ x0 _ _ => x0) ∧ StopsAtStationary (1 / 100000) (fun _ _ x0 _ _ => x0) :=
-  ⟨⟨fun _ _ _ _ h => h, fun _ _ _ _ _ => le_refl _⟩, fun _ _ _ _ _ => rfl⟩
+example : BoxDescent (fun _ _ => True) (fun _ _ x0 _ _ => x0) ∧ StopsAtStationary (1 / 100000) (fun _ _ x0 _ _ => x0) :=
+  ⟨⟨fun _ _ _ _ h => h, fun _ _ _ _ _ _ => le_refl _⟩, fun _ _ _ _ _ => rfl⟩
 
 /-- a concrete start inside a concrete (half-open) box, and the packed array the optimiser gets for it -/
 example : Within [some 0, none] [some 2, some 5] [1, 3] := by
